@@ -63,15 +63,23 @@ Proof. exact (iter_mul_r k g v). Qed.
 Theorem C17_iter_is_power_l (k : nat) (g v : R) : iter k (fun x => nmul g x) v = (v * g ^ k)%R.
 Proof. exact (iter_mul_l k g v). Qed.
 
-(* restore: loading the state_dict of s into ANY freshly built scheduler yields s itself --
-   epoch counter, configuration and the live scheduled value -- hence the same trajectory *)
-Theorem C17_restore_exact {T} {N : Num T} (s s' : ss T) : noise_load_state_dict s' (noise_state_dict s) = s.
-Proof. exact (noise_restore_exact s s'). Qed.
-Theorem C17_clip_restore_exact {T} {N : Num T} (s s' : ss T) : clip_load_state_dict s' (clip_state_dict s) = s.
-Proof. exact (clip_restore_exact s s'). Qed.
-Theorem C17_restore_continues {T} {N : Num T} step k (s s' : ss T) :
-  steps step k (noise_load_state_dict s' (noise_state_dict s)) = steps step k s.
-Proof. exact (noise_restore_continues step k s s'). Qed.
+(* restore.  FULL statement of the property: forall s s', load s' (state_dict s) = s  (so that the
+   restored scheduler continues the trajectory).  It is FALSE of the code: the live scheduled value is
+   kept on the optimizer and is in neither state_dict (Findings/C17.v : C17_restore_refuted; recorded in
+   KNOWN_FINDINGS.json).  Proved part: exact restore when the fresh optimizer carries the same live
+   value, and for Lambda schedules exact agreement from the next scheduler step on. *)
+Theorem C17_restore_exact_partial {T} {N : Num T} (s s' : ss T) :
+  f_oval s' = f_oval s -> noise_load_state_dict s' (noise_state_dict s) = s.
+Proof. exact (noise_restore_exact_partial s s'). Qed.
+Theorem C17_clip_restore_exact_partial {T} {N : Num T} (s s' : ss T) :
+  f_oval s' = f_oval s -> clip_load_state_dict s' (clip_state_dict s) = s.
+Proof. exact (clip_restore_exact_partial s s'). Qed.
+Theorem C17_lambda_restore_next {T} {N : Num T} (s s' : ss T) :
+  noise_step noise_lambda_get (noise_load_state_dict s' (noise_state_dict s)) = noise_step noise_lambda_get s.
+Proof. exact (noise_lambda_restore_next s s'). Qed.
+Theorem C17_clip_lambda_restore_next {T} {N : Num T} (s s' : ss T) :
+  clip_step clip_lambda_get (clip_load_state_dict s' (clip_state_dict s)) = clip_step clip_lambda_get s.
+Proof. exact (clip_lambda_restore_next s s'). Qed.
 
 (* non-vacuity: a concrete scheduler meeting the hypotheses, run on the Z instance *)
 Example C17_nonvacuous :
@@ -94,6 +102,7 @@ Print Assumptions C17_clip_step_closed_form.
 Print Assumptions C17_clip_lambda_closed_form.
 Print Assumptions C17_iter_is_power_r.
 Print Assumptions C17_iter_is_power_l.
-Print Assumptions C17_restore_exact.
-Print Assumptions C17_clip_restore_exact.
-Print Assumptions C17_restore_continues.
+Print Assumptions C17_restore_exact_partial.
+Print Assumptions C17_clip_restore_exact_partial.
+Print Assumptions C17_lambda_restore_next.
+Print Assumptions C17_clip_lambda_restore_next.
